@@ -405,6 +405,7 @@ func (f *Frame) constVal(c *ssa.Const) Val {
 		case u.Info()&types.IsBoolean != 0:
 			return scalar(t, BoolT(constant.BoolVal(c.Value)))
 		case u.Info()&types.IsString != 0:
+			f.vc.lits[constant.StringVal(c.Value)] = true
 			return scalar(t, StrT(constant.StringVal(c.Value)))
 		case u.Info()&types.IsInteger != 0:
 			if i, ok := constant.Int64Val(constant.ToInt(c.Value)); ok {
